@@ -11,6 +11,8 @@ HERE = os.path.dirname(os.path.abspath(__file__))
 SRC = os.path.join(HERE, "harness.cpp")
 SRC_MOD = os.path.join(HERE, "modules.cpp")
 SRC_VH = os.path.join(HERE, "vishist.cpp")
+SRC_W = os.path.join(HERE, "wide.cpp")
+SRC_W2 = os.path.join(HERE, "ident_tu2.cpp")
 HIERS = ["nonconst/default_catch_all", "nonconst/throwing_catch_all", "const/default_catch_all", "const/throwing_catch_all"]
 GEN = os.path.join(vlib.BUILD, "c17gen")
 
@@ -58,8 +60,11 @@ def build(tier="quick"):
         return vlib.compile_cxx(SRC_MOD, "c17Eplugin", std="c++14", opt="-O1", san="asan", defines=["C17_PLUGIN=1"], flags=["-fPIC", "-shared"])
     def vh():
         return vlib.compile_cxx(SRC_VH, "c17F", std="c++14", opt="-O0", san="asan")
-    bins = vlib.parallel([lambda: one("A", "-O1"), lambda: one("B", "-O0"), lambda: one("C", "-O0"), lambda: one("D", "-O1"), host, plugin, vh])
-    return {"A": bins[0], "B": bins[1], "C": bins[2], "D": bins[3], "E": bins[4], "Eplugin": bins[5], "F": bins[6]}, n
+    def wide():
+        # parts G and H: two translation units (wide.cpp + ident_tu2.cpp), each with its own unnamed-namespace class `Widget`
+        return vlib.compile_cxx(SRC_W, "c17W", std="c++14", opt="-O1", san="asan", extra_srcs=[SRC_W2], flags=["-I" + HERE])
+    bins = vlib.parallel([lambda: one("A", "-O1"), lambda: one("B", "-O0"), lambda: one("C", "-O0"), lambda: one("D", "-O1"), host, plugin, vh, wide])
+    return {"A": bins[0], "B": bins[1], "C": bins[2], "D": bins[3], "E": bins[4], "Eplugin": bins[5], "F": bins[6], "W": bins[7]}, n
 
 
 def which(args):
@@ -69,6 +74,8 @@ def which(args):
         return "C"
     if "--vis-hist" in args or "--vis-replay" in args:
         return "F"
+    if "--wide" in args or "--wide-replay" in args:
+        return "W"
     for flag in ("--inst", "--replay"):
         if flag in args and args[args.index(flag) + 1].startswith("val-"):
             return "D"
@@ -106,8 +113,23 @@ def vishist_plan(tier):
     return out
 
 
+def wide_plan(tier):
+    """parts G (type identity: same-named unnamed-namespace classes of two translation units on one basic dispatcher) and
+    H (fast dispatcher over five classes): ALL histories of 1..L operations, each on a fresh dispatcher"""
+    q = tier == "quick"
+    L = "3" if q else "4"
+    out = [["--wide", i, "--len", L] for i in ("ident2", "ident2-static_cast")]
+    out += [["--wide", i, "--len", "4" if q else "5"] for i in ("ident1", "ident1-static_cast")]
+    for i in ("fast5", "fast5-dynamic_cast"):
+        if q:
+            out.append(["--wide", i, "--len", "3"])
+        else:
+            out += [["--wide", i, "--len", "4", "--shard", str(s), "5"] for s in range(5)]
+    return out
+
+
 def plan(tier):
-    return base_plan(tier) + module_plan(tier) + vishist_plan(tier)
+    return base_plan(tier) + module_plan(tier) + vishist_plan(tier) + wide_plan(tier)
 
 
 def base_plan(tier):
@@ -138,7 +160,8 @@ def run(ctx):
     ctx.viols.sort(key=lambda v: (v["sig"], len(v["msg"]), v["msg"]))
     ctx.stats["generated_static_dispatcher_instantiations"] = n
     ctx.stats["evaluations"] = (ctx.stats.get("transitions", 0) + ctx.stats.get("static_dispatch_cases", 0) + ctx.stats.get("visitor_cases", 0)
-                                + ctx.stats.get("module_static_dispatch_cases", 0) + ctx.stats.get("module_visitor_cases", 0) + ctx.stats.get("vis_hist_accept_calls_judged", 0))
+                                + ctx.stats.get("module_static_dispatch_cases", 0) + ctx.stats.get("module_visitor_cases", 0) + ctx.stats.get("vis_hist_accept_calls_judged", 0)
+                                + ctx.stats.get("wide_dispatch_calls_judged", 0))
     ctx.stats["distinct_nontrivial"] = ctx.stats.get("states", 0)
     ctx.note("part D (dispatcher objects as values): %d states, %d transitions of which %d dispatch operations and %d copy/move/swap/relocation/self-assignment/fresh operations; part C: %d visitor classes, %d accept calls "
              "(%d with the own handler present, %d where only handlers of another flavour exist for the visited type)" % (
@@ -154,6 +177,14 @@ def run(ctx):
                  ctx.stats.get("vis_hist_hierarchies", 0), ctx.maxes.get("vis_hist_visitor_objects_per_hierarchy", 0), ctx.maxes.get("vis_hist_shapes", 0), ctx.maxes.get("vis_hist_visitor_objects_with_several_entries", 0),
                  ctx.maxes.get("vis_hist_entry_subobjects_per_hierarchy", 0), ctx.maxes.get("vis_hist_call_alphabet", 0), ctx.stats.get("vis_hist_histories_each_in_a_fresh_process", 0),
                  ctx.maxes.get("vis_hist_history_length", 0), ctx.stats.get("vis_hist_accept_calls_judged", 0)))
+    ctx.note("part G (type identity: two distinct classes with one mangled name, unnamed-namespace `Widget` of two translation units, + Ext, on one basic dispatcher): %d histories (max length %d), "
+             "%d dispatch calls judged, %d of them to registered tuples; the two classes have equal name text: %d, equal hash_code: %d; runs skipped because the compiler does not keep the classes apart: %d. "
+             "part H (fast dispatcher, two arguments over FIVE classes): %d histories (max length %d, alphabet %d insertions), %d dispatch calls judged, %d to registered tuples" % (
+                 ctx.stats.get("ident_histories", 0), ctx.maxes.get("ident_history_length", 0), ctx.stats.get("ident_dispatch_calls_judged", 0), ctx.stats.get("ident_dispatch_calls_to_registered_tuples", 0),
+                 ctx.maxes.get("ident_same_name_classes_have_equal_name_text", 0), ctx.maxes.get("ident_same_name_classes_have_equal_hash_code", 0),
+                 ctx.stats.get("ident_runs_skipped_compiler_does_not_distinguish_the_classes", 0),
+                 ctx.stats.get("fast5_histories", 0), ctx.maxes.get("fast5_history_length", 0), ctx.maxes.get("fast5_operation_alphabet", 0),
+                 ctx.stats.get("fast5_dispatch_calls_judged", 0), ctx.stats.get("fast5_dispatch_calls_to_registered_tuples", 0)))
     ctx.rule = ("(A) BFS over registration/erasure histories of functor_dispatcher over basic_dispatcher (dynamic and static casting) and basic_fast_dispatcher, with 1, 2 and 3 dispatched arguments and with an undispatched "
                 "extra argument: insert<D...>(h) for EVERY type tuple over {A,B,C} and h in {h1,h2}, erase<D...> for every tuple (basic only); every history is replayed on a fresh dispatcher after resetting the "
                 "per-class static indices, so registration order determines the lazily assigned indices and table shapes; after EVERY transition dispatch is called on ALL 3^k argument tuples: registered => exactly that "
@@ -186,6 +217,15 @@ def run(ctx):
                 "parent that never calls accept (a cache inside accept is hidden static/thread_local state); every call of every history judged: handled => exactly visit(T&) once, running on the "
                 "visitor<T,int,c> base OF THE OBJECT PASSED (address obtained by static_cast from the complete object), on the visited object, returning its value; unhandled (C) => no handler ran and the catch-all "
                 "policy answered; a child that dies is attributed to the call it was executing. "
+                "(G) TYPE IDENTITY: the type alphabet {Widget#1, Widget#2, Ext} contains two DISTINCT classes with the same mangled name - `Widget` declared in the unnamed namespace of each of the two translation "
+                "units of the harness, both derived from the common base, objects of both dispatched through ONE functor_dispatcher over basic_dispatcher (1 and 2 arguments, dynamic and static casting) - and the "
+                "external-linkage class Ext. Operations: insert<tuple>(h) / erase<tuple> for every tuple that can be written in a translation unit (over {Widget#i, Ext}, executed in TU i; tuples of Ext only from both TUs): "
+                "16 (2 arguments) / 8 (1 argument) operations; ALL histories of 1..L operations (2 arguments L = 3, thorough 4; 1 argument L = 4, thorough 5), handler id = step number, every history on a fresh dispatcher, "
+                "after it dispatch of ALL 3^k tuples of objects (including (Widget#1,Widget#2) and (Widget#2,Widget#1), which no translation unit can register): distinct dynamic types are distinct keys - same oracle as (A). "
+                "Judged only if a start-up probe that uses nothing of xtl (type_info ==, before, type_index, typeid of the objects, dynamic_cast) shows that the compiler keeps the two classes apart (g++ does). "
+                "(H) basic_fast_dispatcher (static and dynamic casting), two dispatched arguments over a hierarchy of FIVE leaf classes P0..P4: ALL histories of 1..L insert<Pi,Pj>(h) operations over the 25 ordered pairs "
+                "(L = 3: 16 275 histories; thorough L = 4: 406 900), handler id = step number, per-class static indices reset and a fresh dispatcher for every history (no state merging, no state cap), after it dispatch of "
+                "ALL 25 argument pairs, same oracle as (A); hierarchies of 1-4 classes are the histories that mention only those classes. "
                 "distinct_nontrivial = dispatcher states")
     ctx.assumptions += [
         "one fast dispatcher per hierarchy (the per-class index is process-global state, reset by the harness before every replay)",
@@ -199,6 +239,9 @@ def run(ctx):
         "classes have external linkage and default visibility. basic_fast_dispatcher identifies a class by the static index inside an inline function that XTL_IMPLEMENT_INDEXABLE_CLASS() adds to the USER'S class; a module "
         "that cannot see the host's symbols has its own copy of that variable (verified: the addresses differ), so 'registered in one module, object from the other' is two different index variables by construction of the "
         "user's build and not a question about xtl: fast dispatchers are enumerated in module-homogeneous configurations only. The dispatcher object always lives in the host; one plugin; no dlclose",
+        "(G) two translation units of one program, classes with internal linkage and the same name; compiler g++ (the build's compiler) - a compiler whose typeid does not distinguish the two classes is not judged. "
+        "(H) histories of at most 3 (thorough 4) registrations over 5 classes, two dispatched arguments; an index collision that needs a sixth class, a fifth registration or three dispatched arguments over more than "
+        "three classes is not reached",
         "(F) every handler base is a unique public base of the visitor (an ambiguous or inaccessible visitor<T,R,c> base is not 'the handler registered for T'); histories are bounded at length 2 (thorough 3): hidden "
         "state that needs three (four) accept calls in one process to show is not reached; one thread; visitor objects are created before the first accept call and never destroyed during a history",
     ]
